@@ -410,6 +410,22 @@ def gen_session(r, n_runs=None, keep=None, reuse=None, tamper_p=0.5, n=None, ent
     return case
 
 
+def gen_session_with_refusal(r):
+    """valid run, then a run with a malformed schedule (refused: nothing may execute), then another valid run on the
+    same detector object -- which must be what it would be alone."""
+    def strip(c):
+        return {k: v for k, v in c.items() if k not in ("history", "rows", "cols", "detector")}
+
+    a = gen_valid_case(r, dict(nops=r.choice([0, 1])))
+    common = dict(history=a["history"], rows=a["rows"], cols=a["cols"], detector=a["detector"])
+    cls, ts, start = r.choice(MALFORMED_TIMES)
+    b = dict(form="list", times=[hx(t) for t in ts], start=hx(start), nd=r.random() < 0.5, ops=[], tamper=[],
+             plan=gen_plan(r, max(1, len(ts))), wgroup=r.choice(WGROUPS), malformed=cls, path="ctor_in_session")
+    c = strip(gen_valid_case(r, dict(nops=0)))
+    c["tamper"] = []
+    return dict(c, pre=[strip(a), b], **common)
+
+
 def gen_sessions(r, n_random: int):
     out = []
     # every keep/change pattern of (times, start, nd) between two runs, with the same Readout object and with a
@@ -432,8 +448,46 @@ def gen_sessions(r, n_random: int):
     out.append(gen_session(r, n_runs=3, keep=[(True, False, True)] * 2, reuse=[False, False], tamper_p=0.0, n=2))
     for _ in range(n_random):
         out.append(gen_session(r))
+    for _ in range(max(4, n_random // 8)):
+        out.append(gen_session_with_refusal(r))
     for c in out:
         c["judge_all"] = True
+    return out
+
+
+def gen_sessions_exhaustive():
+    """Thorough tier: EVERY two-run session over a small grid -- schedule in {[1], [1,2], [2,3]} x start in {0, 1/2, -1}
+    x mode, for both runs, the second run with the same Readout object (setter calls for what changes) or a new one."""
+    grid = [(ts, st, nd) for ts in ([1.0], [1.0, 2.0], [2.0, 3.0]) for st in (0.0, 0.5, -1.0) for nd in (False, True)]
+    out = []
+    for (t1, s1, n1) in grid:
+        for (t2, s2, n2) in grid:
+            for use_obj in (True, False):
+                first = dict(form="list", times=[hx(t) for t in t1], start=hx(s1), nd=n1, ops=[], wgroup="charge_collection",
+                             plan=[[["pixel", 2, True], ["signal", 5, False]]] * len(t1))
+                second = dict(nd=n2, wgroup="charge_collection", ops=[], tamper=[],
+                              plan=[[["pixel", 3, True], ["image", 4, False]]] * len(t2))
+                if use_obj:
+                    second.update(reuse=True, form="list", times=[], start=hx(s1))
+                    # order of the setter calls: keep every intermediate schedule valid
+                    ops = []
+                    if t2 != t1 and s1 < t2[0]:
+                        ops.append(["set_times", dict(form="list", times=[hx(t) for t in t2])])
+                        if s2 != s1:
+                            ops.append(["set_start", hx(s2)])
+                    elif t2 != t1:
+                        ops.append(["set_start", hx(s2)])
+                        ops.append(["set_times", dict(form="list", times=[hx(t) for t in t2])])
+                    elif s2 != s1:
+                        ops.append(["set_start", hx(s2)])
+                    if n2 != n1:
+                        ops.append(["set_nd", n2])
+                    second["ops"] = ops
+                else:
+                    second.update(form="list", times=[hx(t) for t in t2], start=hx(s2))
+                c = dict(second, pre=[first], history="fresh", rows=1, cols=2, judge_all=True)
+                if all(sched_class(*x) is None for x in intended_all(c)):
+                    out.append(c)
     return out
 
 
@@ -979,6 +1033,10 @@ def run(ctx: Ctx):
 
     cases = gen_cases(ctx, ctx.budget(260, 1500), ctx.budget(1, 3), ctx.budget(40, 300), ctx.budget(8, 80),
                       ctx.budget(60, 400))
+    if not ctx.quick:
+        ex = gen_sessions_exhaustive()
+        ctx.cov["exhaustive_two_run_sessions"] = len(ex)
+        cases += ex
     mism, viol, pairs = evaluate(ctx, cases)
     distinct = set()
     for c, o in pairs:
